@@ -516,6 +516,10 @@ func (r *Raft) setCommitIndex(index uint64) (configCommitted bool) {
 		println(r, "commitIndex", r.commitIndex)
 	}
 	if !r.configs.IsCommitted() && r.configs.Latest.Index <= r.commitIndex {
+		// configs.Committed is still the config that Latest replaces.
+		// a node that is being added sees configs that precede its
+		// addition, while catching up: it was never removed
+		_, wasMember := r.configs.Committed.Nodes[r.nid]
 		r.commitConfig()
 		configCommitted = true
 		if r.state == Leader && !r.configs.Latest.isVoter(r.nid) {
@@ -527,7 +531,7 @@ func (r *Raft) setCommitIndex(index uint64) (configCommitted bool) {
 			r.setState(Follower)
 			r.setLeader(0)
 		}
-		if r.shutdownOnRemove {
+		if r.shutdownOnRemove && wasMember {
 			if _, ok := r.configs.Latest.Nodes[r.nid]; !ok {
 				r.doClose(ErrNodeRemoved)
 			}
